@@ -3,8 +3,8 @@ import random
 from vlib import core, corr
 
 AREA = "C07"
-MODULES = ["TinsModel.Props.C07"]
-AUDIT = "Audit/C07.lean"
+MODULES = ["TinsModel.Props.C07", "TinsModel.Props.Limits.C07"]   # + the constants / limits tied to the source (translator/gen_limits.py)
+AUDIT = ["Audit/C07.lean", "Audit/LimitsC07.lean"]
 LEVEL = "proof"
 HARNESS = "c07_follower"
 HARNESS_EXTRA = ["-fno-access-control"]       # the buffering limits have no public setter
@@ -31,6 +31,10 @@ MANIFEST = dict(
     technique="Lean 4 proof (invariants over packet histories, projection onto one connection, simulation between key "
               "functions, composition with the C06 / C19 theorems) + model/impl correspondence",
     design="DESIGN.md §6 C07")
+MANIFEST["note"] += (" Constants and limits of the C++ source that the model restates (translator/gen_limits.py -> Gen/Limits.lean: "
+                     "compiled probe + preprocessed function bodies at named anchors) are tied to the model's numerals by the "
+                     "theorems of lean/TinsModel/Props/Limits/C07.lean (audit: Audit/LimitsC07.lean); tools/LIMITS-INVENTORY.md lists "
+                     "what is tied and what is not.")
 
 FIN, SYN, RST, PSH, ACK = 1, 2, 4, 8, 16
 M32 = 2 ** 32
@@ -361,9 +365,22 @@ def gen_case(rng, collide=False, big=False, defaults=False):
     return ops
 
 
+def source_defaults():
+    """the limits of a default-constructed StreamFollower as the CURRENT source has them (translator/gen_limits.py);
+    the documented values where the translator found nothing"""
+    from translator import gen_limits
+    v = gen_limits.values()
+    g = lambda k, d: v.get(k) if v.get(k) is not None else d
+    return dict(maxc=g("followerMaxChunks", 512), maxb=g("followerMaxBytes", 3145728), ka=g("followerKeepAliveUs", 300000000))
+
+
 def default_limit_case(rng, which):
-    """cross the default limits (512 chunks / 3 MiB) with a flood of out-of-order segments"""
-    ops = [f"case attach={rng.randrange(2)} maxc=512 maxb=3145728 ka=300000000 acl=1 ooo=0 ack={rng.randrange(4)} maxs={MAXS}"]
+    """cross the limits of a default-constructed follower (the case line names none of them, so the harness leaves what the
+    constructor set, the model takes Gen.Limits, the oracle the documented 512 chunks / 3 MiB / 5 min) with a flood of
+    out-of-order segments, or stay idle for keep-alive -1 / +0 / +1 microseconds.  How far the flood goes is read from
+    the generated table, so the boundary is crossed at the value the source currently says."""
+    lim = source_defaults()
+    ops = [f"case attach={rng.randrange(2)} acl=1 ooo=0 ack={rng.randrange(4)} maxs={MAXS}"]
     fam = rng.choice(["v4", "v6"])
     h = V4_HOSTS if fam == "v4" else V6_HOSTS
     a, b = h[0], h[1]
@@ -372,17 +389,22 @@ def default_limit_case(rng, which):
     ops.append(f"pkt {t} {fam} {a} 1000 {b} 80 {SYN} {isn} 0 none")
     ops.append(f"pkt {t} {fam} {b} 80 {a} 1000 {SYN | ACK} 77 {(isn + 1) % M32} none")
     if which == "chunks":
-        order = list(range(1, 520))
+        order = list(range(1, min(max(lim["maxc"], 512), 20000) + 8))
         rng.shuffle(order)
         for i in order:
             t += 1
             ops.append(f"pkt {t} {fam} {a} 1000 {b} 80 {ACK} {(isn + 1 + 2 * i) % M32} 78 {hexs(bytes([i % 256]))}")
-    else:
+    elif which == "bytes":
         size = 65000
-        for i in range(1, 52):
+        for i in range(1, min(max(lim["maxb"], 3145728), 2 ** 26) // size + 4):
             t += 1
             src, sp, dst, dp, s0 = (a, 1000, b, 80, isn) if i % 2 else (b, 80, a, 1000, 77)
-            ops.append(f"pkt {t} {fam} {src} {sp} {dst} {dp} {ACK} {(s0 + 1 + 10 + i * size) % M32} 78 {hexs(bytes([i]) * size)}")
+            ops.append(f"pkt {t} {fam} {src} {sp} {dst} {dp} {ACK} {(s0 + 1 + 10 + i * size) % M32} 78 {hexs(bytes([i % 256]) * size)}")
+    else:                   # keep-alive: other connections' packets move the clock to the boundary
+        for n, ka in enumerate(sorted({lim["ka"], 300000000})):
+            for k, dt in enumerate([ka - 1, ka, ka + 1, 2 * ka + 2]):
+                ops.append(f"pkt {t + dt} {fam} {a} {2000 + 10 * n + k} {b} 80 {SYN} {isn} 0 none")
+                ops.append(f"find {fam} {a} 1000 {b} 80")
     ops.append(f"find {fam} {a} 1000 {b} 80")
     return ops
 
@@ -571,7 +593,12 @@ def harness():
 
 
 def run(chk):
+    from translator import gen_limits
+    gen_limits.main([])          # Gen/Limits.lean: constants and limits read from the current source
+    chk.trusted.append("translator/gen_limits.py (constants / limits of the source -> Gen/Limits.lean: compiled probe + "
+                       "preprocessed function bodies at named anchors; tied to the model numerals by Props/Limits/C07.lean)")
     problems = chk.prove(MODULES, AUDIT, want_leanchecker=(chk.tier == "thorough"))
+    problems = gen_limits.name_failures(chk, problems, "C07")   # name the tie theorems that fail
     exe, err = harness()
     if exe is None:
         chk.violation("implementation does not build: " + err[-1500:], ["build-error"], nofail=True)
@@ -610,7 +637,7 @@ def run(chk):
     # 2. the default limits (512 chunks / 3 MiB)
     ops = []
     for i in range(1 if quick else 6):
-        ops += default_limit_case(rng, "chunks") + default_limit_case(rng, "bytes")
+        ops += default_limit_case(rng, "chunks") + default_limit_case(rng, "bytes") + default_limit_case(rng, "keepalive")
     for i in range(4 if quick else 60):
         ops += gen_case(rng, defaults=True)
     batch("defaults", ops)
